@@ -220,3 +220,45 @@ func TestC03_Pairs(t *testing.T) {
 		}
 	})
 }
+
+// TestC03_Tails: every token sequence of length <= 3 over the 18-class alphabet appended to a few
+// short valid and half-finished prefixes — the places where a parser runs off the end of its tokens.
+func TestC03_Tails(t *testing.T) {
+	rec := NewRecorder("C03", "tails", "ALL token sequences of length 0..3 over one representative per token class (18 classes) appended to each of 8 short prefixes (a term, an open group, a conjunction, a dangling WITH, a '+', a DocumentRef with its colon, two adjacent terms, a complete WITH term); every entry point under recover(); oracle: no panic; non-trivial = every case; distinct by text")
+	rec.Exhaustive = true
+	defer rec.Finish(t)
+	reps := alphabetReps()
+	prefixes := [][]Tok{
+		{{kLIC, "MIT"}},
+		{{kLP, "("}, {kLIC, "MIT"}},
+		{{kLIC, "MIT"}, {kAND, "AND"}, {kLIC, "ISC"}},
+		{{kLIC, "MIT"}, {kWITH, "WITH"}},
+		{{kLIC, "GPL-2.0"}, {kPLUS, "+"}},
+		{{kDREF, "DocumentRef-d"}, {kCOLON, ":"}},
+		{{kLIC, "MIT"}, {kLIC, "ISC"}},
+		{{kLIC, "GPL-2.0-only"}, {kWITH, "WITH"}, {kEXC, "Classpath-exception-2.0"}},
+	}
+	var tails [][]Tok
+	tails = append(tails, nil)
+	for _, a := range reps {
+		tails = append(tails, []Tok{a})
+		for _, b := range reps {
+			tails = append(tails, []Tok{a, b})
+			for _, c := range reps {
+				tails = append(tails, []Tok{a, b, c})
+			}
+		}
+	}
+	shallowProbe = true
+	defer func() { shallowProbe = false }()
+	parallelFor(len(prefixes)*len(tails), func(i int) {
+		toks := append(append([]Tok{}, prefixes[i/len(tails)]...), tails[i%len(tails)]...)
+		s := RenderToks(toks, &Spacer{tape: []int{0}})
+		c := mkStr(s)
+		out := checkC03String(c)
+		rec.Case(true, s, s, "tail")
+		if !out.OK {
+			rec.Violate("c03-string", out.Key, out.Msg, c)
+		}
+	})
+}
